@@ -22,7 +22,7 @@ RULE = ('case = (command sequence, placement of up to 2 chunk cuts in the REPL o
 ASSUMPTIONS = ['REPL model: line oriented, no echo, SIGINT cancels the open block and re-prompts; bound to reality by replaying every '
                'sequence of length <= 2 on real bash (TIMEOUT there = inconclusive, never a verdict)',
                'chunk cuts: deviation bound 2 per execution over {middle of the output, output|prompt boundary, inside the prompt}',
-               'awaited form (async_=True) is exercised in C14']
+               'awaited form: run_command(async_=True) on the controlled real event loop (mc/aio.py), same sequences and cuts']
 REQUIRED_FLAGS = {'cut_inside_prompt': 1, 'incomplete_then_ok': 1, 'multiline': 1, 'large': 1, 'real_bash': 1}
 
 PROMPT = replwrap.PEXPECT_PROMPT
@@ -140,13 +140,19 @@ def tasks(tier):
     out = []
     for first in sorted(COMMANDS):
         out.append(dict(kind='model', first=first, tier=tier))
+        out.append(dict(kind='model', first=first, tier=tier, aio=True))
     for i in range(4):
         out.append(dict(kind='real-bash', part=i, parts=4, tier=tier))
     return out
 
 
-def run_case(ch, seq, maxcuts=2):
+def run_case(ch, seq, maxcuts=2, use_aio=False):
     E.install()
+    loop = None
+    if use_aio:
+        import asyncio
+        from mc import aio
+        aio.install()
     env = E.Env(ch)
     env.max_points = 2000000
     box = {}
@@ -159,10 +165,16 @@ def run_case(ch, seq, maxcuts=2):
         repl_model = Repl(env, sp, ch, maxcuts)
         env.pump = repl_model.pump
         rw = replwrap.REPLWrapper(sp, '>>> ', 'CHANGE {0} {1}')
+        if use_aio:
+            loop = aio.new_loop()
+            asyncio.set_event_loop(loop)
         for name in seq:
             cmd, want = COMMANDS[name]
             try:
-                got = rw.run_command(cmd, timeout=5)
+                if use_aio:
+                    got = loop.run_until_complete(rw.run_command(cmd, timeout=5, async_=True))
+                else:
+                    got = rw.run_command(cmd, timeout=5)
                 kind = 'ret'
             except ValueError as e:
                 got, kind = None, 'ValueError'
@@ -189,6 +201,16 @@ def run_case(ch, seq, maxcuts=2):
     except Cut as c:
         viol = ('horizon', str(c))
     finally:
+        if use_aio:
+            try:
+                tr_ = getattr(box.get('sp'), 'async_pw_transport', None)
+                if tr_:
+                    tr_[1].abort()
+                if loop is not None:
+                    aio.close_loop(loop)
+                asyncio.set_event_loop(None)
+            except Exception:
+                pass
         if 'sp' in box:
             E.finalize_pty(box['sp'])
         env.finish()
@@ -271,7 +293,7 @@ def run_task(task):
             big = 'big300k' in seq
 
             def run(ch):
-                return run_case(ch, seq, maxcuts=1 if big else 2)
+                return run_case(ch, seq, maxcuts=1 if big else 2, use_aio=bool(task.get('aio')))
             for ch, (obs, viol) in dfs(run):
                 acc.execs += 1
                 acc.transitions += len(seq)
@@ -288,7 +310,7 @@ def run_task(task):
                     acc.flags['large'] += 1
                 acc.outcomes['%s/%d-cuts' % ('viol:' + viol[0] if viol else 'ok', len(obs.get('cuts', ())))] += 1
                 if viol:
-                    acc.violation('model:%s:%s' % (seq[len(obs['results']) - 1] if obs.get('results') else seq[0], viol[0]),
+                    acc.violation('model%s:%s:%s' % ('-awaited' if task.get('aio') else '', seq[len(obs['results']) - 1] if obs.get('results') else seq[0], viol[0]),
                                   '%s | cuts %r' % (viol[1], obs.get('cuts')), dict(task=task, seq=list(seq), choices=ch.choices()))
     acc.states += 1
     acc.sample(dict(task=task, seq=['incomplete', 'three', 'twoline'], cuts=['inside-prompt']))
@@ -309,8 +331,8 @@ def replay(spec):
                 out['violation'] = {'key': k, 'msg': v[0]['msg']}
         return out
     seq = tuple(spec['seq'])
-    obs, viol = run_case(Chooser(spec['choices']), seq, maxcuts=1 if 'big300k' in seq else 2)
+    obs, viol = run_case(Chooser(spec['choices']), seq, maxcuts=1 if 'big300k' in seq else 2, use_aio=bool(task.get('aio')))
     out['observation'] = obs
     if viol:
-        out['violation'] = {'key': 'model:%s:%s' % (seq[len(obs['results']) - 1] if obs.get('results') else seq[0], viol[0]), 'msg': viol[1]}
+        out['violation'] = {'key': 'model%s:%s:%s' % ('-awaited' if task.get('aio') else '', seq[len(obs['results']) - 1] if obs.get('results') else seq[0], viol[0]), 'msg': viol[1]}
     return out
